@@ -47,6 +47,7 @@ fn main() {
         let sc = gen_readd_script(&mut r);
         readd_case(&mut s, &sc);
     }
+    detached_suspend_witness(&mut s);
     // insert_before/after read the reference bar's index BEFORE the MultiState lock is taken: a
     // remove(reference) of another thread can fall in between (docs/C02.md "Findings")
     stale_index_race(&mut s, if a.thorough { 200_000 } else if a.extended { 60_000 } else { 10_000 });
@@ -315,6 +316,37 @@ fn readd_case(s: &mut Session, script: &[SOp]) {
     }
     let _ = catch(move || drop(keep));
     s.oracle_only(desc, script.len() >= 4);
+}
+
+/// Coq witness C02_detached_suspend_refuted replayed on the implementation: suspend through a bar
+/// that is NOT a member just runs the closure; its line lands below the live region and the next
+/// draw repaints the member below it, leaving the old row above: rows "A0", "w", "A0".  This is
+/// API misuse (foreign output has to go through MultiProgress::suspend or a member), the reason why
+/// FitsAll excludes it; the check only confirms that model and implementation agree on the witness
+/// (`detached-suspend-witness-not-reproduced` otherwise).
+fn detached_suspend_witness(s: &mut Session) {
+    let b = |id: &str| BarInit { len: Some(10), fin: Fin::AndLeave, tmpl: vec![TPart::Lit(id.into()), TPart::Pos], target: TInit::Hidden };
+    let ms = 1_000_000u64;
+    let case = Case {
+        w: 6,
+        h: 10,
+        fail_at: vec![],
+        fail_from: None,
+        mp: TInit::Term(None),
+        bars: vec![b("A"), b("D")],
+        ops: vec![(0, Op::Insert(Loc::End, 0)), (ms, Op::Tick(0)), (2 * ms, Op::Suspend(1, vec!["w".into()])), (3 * ms, Op::Tick(0))],
+    };
+    let obs = run_case(&case);
+    let mut vt = Vt::new(6, 10);
+    for o in &obs {
+        vt.feed(&o.emitted);
+    }
+    let rows: Vec<String> = vt.rows().into_iter().filter(|r| !r.is_empty()).collect();
+    let desc = format!("detached-suspend witness (C02_detached_suspend_refuted): {}", describe(&case));
+    if rows != ["A0", "w", "A0"] {
+        s.fail("detached-suspend-witness-not-reproduced", format!("rows {rows:?}, the model says [\"A0\", \"w\", \"A0\"]"), desc.clone());
+    }
+    s.oracle_only(desc, true);
 }
 
 /// A MultiProgress on a 1 Hz / 20 Hz terminal target whose burst allowance is used up (30 ticks at
